@@ -211,3 +211,87 @@ def compress_runs(tokens, k=0, upper=False):
             out.extend(tokens[i + 1:j + 1])
         i = j + 1
     return out, changed
+
+
+def expand_shorthand(tokens):
+    """Reference expansion of nR / nM / nI (used to validate compress_data)."""
+    import re
+    out = []
+    i = 0
+    toks = [str(t).lower() for t in tokens]
+    while i < len(toks):
+        t = toks[i]
+        if re.match(r'^\d*r$', t):
+            out.extend([out[-1]] * (int(t[:-1]) if len(t) > 1 else 1))
+        elif re.match(r'^[\d.]+m$', t):
+            out.append(out[-1] * float(t[:-1]))
+        elif re.match(r'^\d*i$', t):
+            n = int(t[:-1]) if len(t) > 1 else 1
+            hi = float(toks[i + 1])
+            lo = out[-1]
+            out.extend(lo + (hi - lo) * k / (n + 1) for k in range(1, n + 1))
+            out.append(hi)
+            i += 1
+        else:
+            out.append(float(t))
+        i += 1
+    return out
+
+
+def compress_data(values, bits, fmt=None, upper=False):
+    """Deterministic respelling of a list of numbers with nR / nI / nM
+    shorthand; returns (tokens, kinds used).  The result is validated by
+    expanding it again; on any mismatch the plain spelling is returned."""
+    fmt = fmt or mr.fnum
+    vals = [float(v) for v in values]
+    toks = [fmt(values[0])]
+    used = set()
+    i = 1
+    k = 0
+    n = len(vals)
+
+    def bit():
+        nonlocal k
+        k += 1
+        return bits[k % len(bits)]
+    up = (lambda t: t.upper()) if upper else (lambda t: t)
+    while i < n:
+        prev = vals[i - 1]
+        # arithmetic progression prev, v_i, ..., v_{i+m}
+        step = vals[i] - prev
+        m = 0
+        while step != 0 and i + m + 1 < n and \
+                abs((vals[i + m + 1] - vals[i + m]) - step) < 1e-12:
+            m += 1
+        if m >= 1 and bit() % 3 != 0:
+            toks.append(up('%di' % m if m > 1 or bit() % 2 else 'i'))
+            toks.append(fmt(values[i + m]))
+            used.add('nI')
+            i += m + 1
+            continue
+        if vals[i] == prev and bit() % 3 != 0:
+            j = i
+            while j + 1 < n and vals[j + 1] == prev:
+                j += 1
+            cnt = j - i + 1
+            toks.append(up('%dr' % cnt if cnt > 1 or bit() % 2 else 'r'))
+            used.add('nR')
+            i = j + 1
+            continue
+        if prev != 0 and vals[i] != 0 and (vals[i] / prev).is_integer() \
+                and vals[i] / prev > 1 and bit() % 3 != 0:
+            toks.append(up('%dm' % int(vals[i] / prev)))
+            used.add('nM')
+            i += 1
+            continue
+        toks.append(fmt(values[i]))
+        i += 1
+    try:
+        back = expand_shorthand(toks)
+        ok_ = len(back) == n and all(abs(a - b) < 1e-12
+                                      for a, b in zip(back, vals))
+    except Exception:
+        ok_ = False
+    if not ok_:
+        return [fmt(v) for v in values], set()
+    return toks, used
